@@ -30,6 +30,7 @@ pub fn run(prop: &str, req: &str, rep: &str, outfile: &str) {
         "C17" => oracle_c17(&reqs, &reps, &mut fails, &mut checked, &mut nontrivial),
         "C18" => oracle_c18(&reqs, &reps, &mut fails, &mut checked, &mut nontrivial),
         "C13" => oracle_c13(&reqs, &reps, &mut fails, &mut checked, &mut nontrivial),
+        "C19" => oracle_c19(&reqs, &reps, &mut fails, &mut checked, &mut nontrivial),
         _ => {
             eprintln!("no oracle for {prop}");
             std::process::exit(2);
@@ -256,6 +257,88 @@ fn oracle_c13(
                 } else if *r != expect.tok() {
                     fail(fails, i, q, r, format!("documented semantics give {}", expect.tok()));
                 }
+            }
+        }
+    }
+}
+
+// ------------------------------------------------------------------------------------
+
+fn c19_rows() -> Vec<Vec<(String, V)>> {
+    let names = ["a", "b", "c", "T.c"];
+    let vals = [
+        vec![V::Int(1), V::Int(0), V::Int(7), V::Int(-2)],
+        vec![V::Int(0), V::Int(1), V::Null, V::Int(3)],
+        vec![V::Str("x".into()), V::Int(5), V::Str(String::new()), V::Str("y".into())],
+        vec![V::Null, V::Null, V::Int(-3), V::Int(0)],
+        vec![V::Int(6), V::Int(-3), V::Int(2), V::Int(31)],
+        vec![V::Int(i32::MAX), V::Int(2), V::Int(i32::MIN), V::Int(1)],
+    ];
+    vals.iter()
+        .map(|vs| names.iter().map(|n| n.to_string()).zip(vs.iter().cloned()).collect())
+        .collect()
+}
+
+fn oracle_c19(
+    reqs: &[String],
+    reps: &[String],
+    fails: &mut Vec<Failure>,
+    checked: &mut u64,
+    nontrivial: &mut HashSet<String>,
+) {
+    let rows = c19_rows();
+    for (i, (q, r)) in reqs.iter().zip(reps.iter()).enumerate() {
+        let t: Vec<&str> = q.split(' ').collect();
+        if t[0] != "fmt" {
+            continue;
+        }
+        *checked += 1;
+        if r == "panic" {
+            fail(fails, i, q, r, "printing panicked".into());
+            continue;
+        }
+        let (e, _) = E::parse(&t[1..]).unwrap();
+        let text = match str_of_hex(r) {
+            Some(x) => x,
+            None => {
+                fail(fails, i, q, r, "reply is not text".into());
+                continue;
+            }
+        };
+        if e.depth() >= 2 {
+            nontrivial.insert(text.clone());
+        }
+        let back = match crate::reader::read_expr(&text) {
+            Some(b) => b,
+            None => {
+                fail(fails, i, q, r, format!("printed text {text:?} does not read with the grammar's precedence"));
+                continue;
+            }
+        };
+        let mut c1 = vec![];
+        e.columns(&mut c1);
+        c1.sort();
+        c1.dedup();
+        let mut c2 = vec![];
+        back.columns(&mut c2);
+        c2.sort();
+        c2.dedup();
+        if c1 != c2 {
+            fail(fails, i, q, r, format!("printed text {text:?} names columns {c2:?}, the expression {c1:?}"));
+            continue;
+        }
+        for row in &rows {
+            let v1 = e.ref_eval(row);
+            let v2 = back.ref_eval(row);
+            if v1 != v2 {
+                fail(
+                    fails,
+                    i,
+                    q,
+                    r,
+                    format!("printed text {text:?} reads as an expression that evaluates to {v2:?} where the original gives {v1:?} (row {row:?})"),
+                );
+                break;
             }
         }
     }
